@@ -90,6 +90,12 @@ CLAIMED["C10"] = dict(
    technique="symbolic execution of the decoder and VM with symbolic type tags + SMT panic-site VCs",
    ref="DESIGN.md §5 C10")
 
+CLAIMED["C09"] = dict(
+   text="Bounded model checking of snapshot/restore through the real ToJSON / UnmarshalJSON code: (a) every value tree of depth <= 2 (containers of 0..2 elements; integers as 64-bit solver symbols, representative finite floats, JSON-hostile strings, null, arrays, dicts, computed values with attributes, functions, native functions, also a container referenced twice) round-trips to a structurally equal value with equal repr, alone and inside a variable map; (b) every reference-cycle shape over <= 2 container nodes and non-finite floats give an error, never a crash (stack exhaustion counts) or a document; (c) a 7-statement program over a symbolic integer is snapshotted after every statement prefix, restored into a fresh VM, and 10 follow-up programs give the same value, error status and process text on both VMs.",
+   note="encoding/json is the engine's model (real tokenizer + type-driven mapper calling the code's own methods; symbolic integers travel as sentinel literals, so integer text formatting/parsing itself is trusted). Floats are concrete representatives. Defect found and fixed: cycles through a dict overflowed the stack.",
+   technique="symbolic execution of serialiser, decoder and VM + SMT; relational original-vs-restored harness",
+   ref="DESIGN.md §5 C09")
+
 NA = {
 }
 
